@@ -370,8 +370,11 @@ func runC11(p *core.Program, r *core.Report) {
 // c11R6: every name the namer hands out went through the argument rewriter
 // (processName): no return of the raw Name()/String() of the reference except
 // the empty-name fallback.
-func c11R6(p *core.Program, r *core.Report) {
-	const rule = "R6"
+func c11R6(p *core.Program, r *core.Report) { namerRewriteRule(p, r, "R6") }
+
+// namerRewriteRule is shared by C11.R6 and C03.R9 (the rewriter is also what
+// registers the packages of a generic instantiation's type arguments).
+func namerRewriteRule(p *core.Program, r *core.Report, rule string) {
 	r.Floor(rule, 2)
 	nf := p.FuncByName("pkg/namer", "(*rawNamer).Name")
 	pn := p.FuncByName("pkg/namer", "(*rawNamer).processName")
@@ -451,8 +454,11 @@ func c11R6(p *core.Program, r *core.Report) {
 // c11R7: the printers keep no mutable state on the Dumper: TypeLit / ValueLit
 // are recursive, so a buffer or counter stored on the receiver is clobbered by
 // the nested call.
-func c11R7(p *core.Program, r *core.Report) {
-	const rule = "R7"
+func c11R7(p *core.Program, r *core.Report) { dumperStatelessRule(p, r, "R7") }
+
+// dumperStatelessRule is shared by C11.R7 and C10.R9 (a literal's type prefix and
+// every nested literal must be computed from this value, not remembered).
+func dumperStatelessRule(p *core.Program, r *core.Report, rule string) {
 	r.Floor(rule, 1)
 	n := 0
 	for _, f := range p.Funcs() {
